@@ -606,8 +606,9 @@ open Afkak.Consts Afkak.Monitor.ProducerTrace Afkak.Monitor.C01 Afkak.Monitor.C0
 
 /-- the summary right after an effective completion event for the request in flight -/
 def completedTrack (t : Track) (ps : List Payload) (r : ProdRes) : Track :=
-  { t with curRes := some r, acct := t.acct && accounts ps r,
-           acct0 := t.acct0 && isAcks0Shape r,
+  { t with curRes := some r,
+           ex1 := if accounts ps r then t.ex1 else batchSids t ++ t.ex1,
+           ex0 := if isAcks0Shape r then t.ex0 else batchSids t ++ t.ex0,
            acked := ((respsOf r).filter (·.error = 0)).map (·.tp) ++ t.acked }
 
 /-- the client's result for the request in flight is handled (`finish ∘ handleSendResponse`) -/
